@@ -758,3 +758,309 @@ Lemma workers_duplicate_uids_sensitive :
      <> c_calls (out_core (fst (optimise current_code w_platform (set_n_jobs 2 w_par_config) 0 w_const_rng
                                          (set_sched (fun _ _ l => rev l) (w_oracles None)) 9))).
 Proof. vm_compute. split; [reflexivity | discriminate]. Qed.
+
+(* ===================================================================================== *)
+(* C. every identifier is a window of the identifier source                               *)
+(* ===================================================================================== *)
+(* the stream os.urandom reads: the choice stream under urandom_mock, the OS entropy otherwise *)
+Definition src (r : rng) : stream := match r_ids r with Mocked => r_stream r | OsEntropy e => e end.
+Definition mocked (r : rng) : bool := match r_ids r with Mocked => true | OsEntropy _ => false end.
+
+Definition is_window (pl : platform) (s0 : stream) (u : nat) : Prop :=
+  exists j, u = encode pl (to_bytes (window (uid_len pl) j s0)).
+
+Definition rinv (m : bool) (s0 : stream) (r : rng) : Prop := mocked r = m /\ exists j, src r = skipn j s0.
+
+Definition cinv (pl : platform) (m : bool) (s0 : stream) (c : core) : Prop :=
+  rinv m s0 (c_rng c) /\ Forall (is_window pl s0) (c_created c) /\ map fst (c_lineage c) = c_created c.
+
+Lemma skipn_skipn' : forall A n j (l : list A), skipn n (skipn j l) = skipn (j + n) l.
+Proof.
+  intros A n j. revert n. induction j as [|j IH]; intros n l; simpl.
+  - reflexivity.
+  - destruct l as [|x l]; [now rewrite !skipn_nil | apply IH].
+Qed.
+
+Lemma window_skipn : forall n j s, window n 0 (skipn j s) = window n j s.
+Proof. intros. unfold window. reflexivity. Qed.
+
+Lemma rinv_urandom : forall m s0 n r, rinv m s0 r ->
+  rinv m s0 (snd (urandom n r)) /\ exists j, fst (urandom n r) = to_bytes (window n j s0).
+Proof.
+  intros m s0 n r [Hm [j Hj]]. unfold urandom, rinv, src, mocked in *.
+  destruct (r_ids r) as [|e]; simpl in *.
+  - split; [split; [exact Hm | exists (j + n); rewrite Hj; apply skipn_skipn'] | ].
+    exists j. rewrite Hj. now rewrite window_skipn.
+  - split; [split; [exact Hm | exists (j + n); rewrite Hj; apply skipn_skipn'] | ].
+    exists j. rewrite Hj. now rewrite window_skipn.
+Qed.
+
+Lemma rinv_uuid4 : forall pl m s0 r, rinv m s0 r ->
+  rinv m s0 (snd (uuid4 pl r)) /\ is_window pl s0 (fst (uuid4 pl r)).
+Proof.
+  intros pl m s0 r H. unfold uuid4. destruct (rinv_urandom m s0 (uid_len pl) r H) as [H1 [j H2]].
+  destruct (urandom (uid_len pl) r) as [bs r']. simpl in *. split; [exact H1 | ].
+  exists j. now rewrite H2.
+Qed.
+
+Lemma rinv_burn : forall pl m s0 n r, rinv m s0 r -> rinv m s0 (burn_uuids pl n r).
+Proof.
+  intros pl m s0 n. induction n as [|n IH]; intros r H; simpl; [exact H | ].
+  apply IH. apply (rinv_uuid4 pl m s0 r H).
+Qed.
+
+Lemma rinv_consume : forall m s0 n r, rinv m s0 r -> rinv m s0 (consume_rng n r).
+Proof.
+  intros m s0 n r [Hm [j Hj]]. unfold rinv, consume_rng, src, mocked in *. simpl.
+  destruct (r_ids r); simpl in *.
+  - split; [exact Hm | exists (j + n); rewrite Hj; apply skipn_skipn'].
+  - split; [exact Hm | exists j; exact Hj].
+Qed.
+
+Lemma materialise_inv : forall pl m s0 cs r, rinv m s0 r ->
+  rinv m s0 (snd (materialise pl cs r)) /\ Forall (is_window pl s0) (map fst (snd (fst (materialise pl cs r)))).
+Proof.
+  intros pl m s0 cs. induction cs as [|cd t IH]; intros r H; simpl.
+  - split; [exact H | constructor].
+  - destruct cd as [i | g ps op].
+    + specialize (IH r H). destruct (materialise pl t r) as [[is ls] r']. exact IH.
+    + destruct (rinv_uuid4 pl m s0 r H) as [H1 W]. destruct (uuid4 pl r) as [u r1]. simpl in *.
+      specialize (IH r1 H1). destruct (materialise pl t r1) as [[is ls] r2]. simpl in *.
+      destruct IH as [IH1 IH2]. split; [exact IH1 | constructor; assumption].
+Qed.
+
+Definition preserves (I : core -> Prop) {A} (m : M A) : Prop := forall c p, I c -> I (fst (fst (m (c, p)))).
+
+Lemma preserves_ret : forall (I : core -> Prop) A (a : A), preserves I (ret a).
+Proof. intros I A a c p H. exact H. Qed.
+Lemma preserves_raise : forall (I : core -> Prop) A e, preserves I (@raise A e).
+Proof. intros I A e c p H. exact H. Qed.
+Lemma preserves_pres_op : forall (I : core -> Prop) h, preserves I (pres_op h).
+Proof. intros I h c p H. exact H. Qed.
+Lemma preserves_pres_read : forall (I : core -> Prop) h, preserves I (pres_read h).
+Proof. intros I h c p H. exact H. Qed.
+Lemma preserves_core_op : forall (I : core -> Prop) A (f : core -> core * flow A),
+  (forall c, I c -> I (fst (f c))) -> preserves I (core_op f).
+Proof. intros I A f Hf c p H. unfold core_op. simpl. specialize (Hf c H). destruct (f c). exact Hf. Qed.
+Lemma preserves_bind : forall (I : core -> Prop) A B (m : M A) (f : A -> M B),
+  preserves I m -> (forall a, preserves I (f a)) -> preserves I (bind m f).
+Proof.
+  intros I A B m f Hm Hf c p H. unfold bind. specialize (Hm c p H).
+  destruct (m (c, p)) as [[c1 p1] [a|e]]; simpl in *; [apply Hf; exact Hm | exact Hm].
+Qed.
+
+Section Windows.
+Variable code : codevariant.
+Variable pl : platform.
+Variable k : kcfg.
+Variable v : vcfg.
+Variable salt : nat.
+Variable o : oracles.
+Variable m : bool.
+Variable s0 : stream.
+Let I := cinv pl m s0.
+
+Lemma I_consume : forall n c, I c -> I (consume n c).
+Proof. intros n c [H1 [H2 H3]]. split; [apply rinv_consume; exact H1 | split; assumption]. Qed.
+
+Lemma I_same : forall c c', c_rng c' = c_rng c -> c_created c' = c_created c -> c_lineage c' = c_lineage c -> I c -> I c'.
+Proof. intros c c' E1 E2 E3 [H1 [H2 H3]]. unfold I, cinv. rewrite E1, E2, E3. auto. Qed.
+
+Lemma preserves_create : forall cs, preserves I (create pl cs).
+Proof.
+  intros cs. unfold create. apply preserves_core_op. intros c [H1 [H2 H3]].
+  destruct (materialise_inv pl m s0 cs (c_rng c) H1) as [M1 M2].
+  destruct (materialise pl cs (c_rng c)) as [[is ls] r']. simpl in *.
+  split; [exact M1 | split].
+  - unfold add_created; simpl. apply Forall_app. split; assumption.
+  - unfold add_created; simpl. rewrite map_app, H3. reflexivity.
+Qed.
+
+Lemma preserves_evaluate : forall pop, preserves I (evaluate code pl k v o pop).
+Proof.
+  intros pop. unfold evaluate. apply preserves_bind.
+  - destruct (in_parallel_mode k); [apply preserves_pres_op | apply preserves_ret].
+  - intros _. apply preserves_core_op. intros c [H1 [H2 H3]]. unfold evaluate_core.
+    destruct (in_parallel_mode k); simpl; [ | split; [exact H1 | split; assumption]].
+    split; [ | split; assumption]. simpl.
+    destruct (fanout_isolated code); [exact H1 | apply rinv_burn; exact H1].
+Qed.
+
+Lemma preserves_update_population : forall lbl np, preserves I (update_population v o lbl np).
+Proof.
+  intros. unfold update_population. apply preserves_bind; [ | intros; apply preserves_pres_read].
+  apply preserves_core_op. intros c H. destruct (o_keeper o (gen_num c) (c_archive c) np) as [arch imp].
+  destruct (o_callback o (gen_num c) np); simpl; apply (I_same c); auto.
+Qed.
+
+Lemma preserves_record_rs : forall lbl inds, preserves I (record_rs v o lbl inds).
+Proof.
+  intros. unfold record_rs. apply preserves_bind; [ | intros; apply preserves_pres_read].
+  apply preserves_core_op. intros c H. destruct (o_keeper o (gen_num c) (c_archive c) inds) as [arch imp].
+  simpl. apply (I_same c); auto.
+Qed.
+
+Lemma preserves_init_pop : preserves I (init_pop code pl k v salt o).
+Proof.
+  unfold init_pop. apply preserves_bind; [apply preserves_create | intros inds].
+  apply preserves_bind; [apply preserves_evaluate | intros evd].
+  apply preserves_bind; [apply preserves_update_population | intros _].
+  destruct (length (refresh inds evd) <? k_pop_size k); [ | apply preserves_ret].
+  apply preserves_bind.
+  { apply preserves_core_op. intros c H. destruct (o_extend o salt (cstream c) (refresh inds evd)). simpl.
+    now apply I_consume. }
+  intros cs. apply preserves_bind; [apply preserves_create | intros news].
+  apply preserves_bind; [apply preserves_evaluate | intros evd2]. apply preserves_update_population.
+Qed.
+
+Lemma preserves_evolve : preserves I (evolve code pl k v salt o).
+Proof.
+  unfold evolve. apply preserves_bind.
+  { apply preserves_core_op. intros c H.
+    destruct (o_propose o salt (gen_num c) (cstream c) (c_pop c) (c_archive c)). simpl. now apply I_consume. }
+  intros r. destruct r as [e | cs].
+  - destruct e; try apply preserves_raise.
+    apply preserves_bind; [apply preserves_pres_op | intros; apply preserves_ret].
+  - apply preserves_bind; [apply preserves_create | intros inds].
+    apply preserves_bind; [apply preserves_evaluate | intros evd].
+    apply preserves_bind.
+    { apply preserves_core_op. intros c H.
+      destruct (o_survive o salt (gen_num c) (cstream c) (c_pop c) evd (c_archive c)). simpl. now apply I_consume. }
+    intros np. apply preserves_bind; [apply preserves_pres_op | intros; apply preserves_ret].
+Qed.
+
+Lemma preserves_id_op : forall A (t : core -> A), preserves I (core_op (fun c => (c, Val (t c)))).
+Proof. intros. apply preserves_core_op. intros c H. exact H. Qed.
+
+Lemma preserves_pop_loop : forall fuel, preserves I (pop_loop code pl k v salt o fuel).
+Proof.
+  induction fuel as [|f IH]; simpl; [apply preserves_raise | ].
+  apply preserves_bind; [apply preserves_id_op | intros stop]. destruct stop; [apply preserves_ret | ].
+  apply preserves_bind; [apply preserves_evolve | intros r]. destruct r; [ | apply preserves_ret].
+  apply preserves_bind; [apply preserves_update_population | intros _; exact IH].
+Qed.
+
+Lemma preserves_propose_rs : preserves I (propose_rs salt o).
+Proof.
+  unfold propose_rs. apply preserves_bind.
+  { apply preserves_core_op. intros c H.
+    destruct (o_propose o salt (c_iter c) (cstream c) (c_pop c) (c_archive c)). simpl. now apply I_consume. }
+  intros r. destruct r; [apply preserves_raise | apply preserves_ret].
+Qed.
+
+Lemma preserves_rs_init : preserves I (rs_init code pl k v salt o).
+Proof.
+  unfold rs_init. apply preserves_bind.
+  - destruct (o_initial o); [apply preserves_propose_rs | ].
+    apply preserves_core_op. intros c H. simpl. now apply I_consume.
+  - intros cs. apply preserves_bind; [apply preserves_create | intros inds].
+    apply preserves_bind; [apply preserves_evaluate | intros evd]. apply preserves_record_rs.
+Qed.
+
+Lemma preserves_rs_loop : forall fuel, preserves I (rs_loop code pl k v salt o fuel).
+Proof.
+  induction fuel as [|f IH]; simpl; [apply preserves_raise | ].
+  apply preserves_bind; [apply preserves_id_op | intros stop]. destruct stop; [apply preserves_ret | ].
+  apply preserves_bind; [apply preserves_propose_rs | intros cs].
+  apply preserves_bind; [apply preserves_create | intros inds].
+  apply preserves_bind; [apply preserves_evaluate | intros evd].
+  apply preserves_bind; [apply preserves_core_op; intros c H; simpl; apply (I_same c); auto | intros _].
+  apply preserves_bind; [destruct evd; [apply preserves_ret | apply preserves_record_rs] | intros _].
+  apply preserves_bind; [apply preserves_pres_op | intros _; exact IH].
+Qed.
+
+Lemma preserves_finale : preserves I (finale k v o).
+Proof.
+  unfold finale. destruct (k_kind k).
+  - unfold finale_pop. apply preserves_bind; [apply preserves_pres_op | intros _].
+    apply preserves_bind; [apply preserves_id_op | intros best].
+    apply preserves_bind; [apply preserves_update_population | intros _]. apply preserves_id_op.
+  - unfold finale_rs. apply preserves_bind; [apply preserves_id_op | intros best].
+    apply preserves_bind; [apply preserves_record_rs | intros _].
+    apply preserves_bind; [apply preserves_pres_op | intros _]. apply preserves_id_op.
+Qed.
+
+Lemma preserves_with_bar : forall b, preserves I b -> preserves I (with_bar code v b).
+Proof.
+  intros b Hb c p H. unfold with_bar. simpl. specialize (Hb c (bar_enter v p) H).
+  destruct (b (c, bar_enter v p)) as [[c1 p1] [a|e]]; simpl in *; [exact Hb | ].
+  destruct e; try exact Hb; destruct (bar_exit_value code v); exact Hb.
+Qed.
+
+Lemma preserves_run : forall fuel, preserves I (run code pl k v salt o fuel).
+Proof.
+  intros fuel. unfold run. apply preserves_bind; [apply preserves_pres_read | intros _].
+  apply preserves_bind; [ | intros _; apply preserves_finale].
+  apply preserves_with_bar. unfold body. destruct (k_kind k).
+  - apply preserves_bind; [apply preserves_init_pop | intros _; apply preserves_pop_loop].
+  - apply preserves_bind; [apply preserves_rs_init | intros _; apply preserves_rs_loop].
+Qed.
+End Windows.
+
+Lemma cinv_core0 : forall pl r, cinv pl (mocked r) (src r) (core0 r).
+Proof.
+  intros pl r. split; [split; [reflexivity | exists 0; reflexivity] | split; [constructor | reflexivity]].
+Qed.
+
+(* whatever the code variant, configuration, salt, oracles and fuel: every identifier the run
+   creates is the encoding of uid_len consecutive outputs of the identifier source, and the
+   lineage is keyed by exactly these identifiers *)
+Theorem uid_source_gen : forall code pl cfg salt r o fuel,
+  let c := out_core (fst (optimise code pl cfg salt r o fuel)) in
+  Forall (is_window pl (src r)) (c_created c) /\ map fst (c_lineage c) = c_created c.
+Proof.
+  intros code pl cfg salt r o fuel. unfold optimise.
+  pose proof (preserves_run code pl (kpart cfg) (vpart cfg) salt o (mocked r) (src r) fuel (core0 r) present0
+                            (cinv_core0 pl r)) as P.
+  destruct (run code pl (kpart cfg) (vpart cfg) salt o fuel (core0 r, present0)) as [[c p] fl]. simpl in *.
+  destruct P as [_ P]. exact P.
+Qed.
+
+(* os.urandom replaced by urandom_mock: the identifier source IS the choice stream *)
+Theorem uid_source_single_stream : forall code pl cfg salt s o fuel,
+  Forall (fun u => exists j, u = encode pl (to_bytes (window (uid_len pl) j s)))
+         (c_created (out_core (fst (optimise code pl cfg salt {| r_stream := s; r_ids := Mocked |} o fuel)))).
+Proof. intros. apply (uid_source_gen code pl cfg salt {| r_stream := s; r_ids := Mocked |} o fuel). Qed.
+
+(* without the replacement (this is all GOLEM(seed=...) / set_random_seed do) the identifiers are
+   windows of the OS entropy, whatever the seeded stream is ... *)
+Theorem uid_source_unmocked : forall code pl cfg salt s e o fuel,
+  Forall (fun u => exists j, u = encode pl (to_bytes (window (uid_len pl) j e)))
+         (c_created (out_core (fst (optimise code pl cfg salt {| r_stream := s; r_ids := OsEntropy e |} o fuel)))).
+Proof. intros. apply (uid_source_gen code pl cfg salt {| r_stream := s; r_ids := OsEntropy e |} o fuel). Qed.
+
+(* ... so the same seeded stream gives different identifiers for different entropy *)
+Lemma uid_source_unmocked_sensitive :
+  c_created (out_core (fst (optimise current_code w_platform w_config 0
+                                     {| r_stream := r_stream w_rng; r_ids := OsEntropy [1; 1; 1; 1] |} (w_oracles None) 9)))
+  <> c_created (out_core (fst (optimise current_code w_platform w_config 0
+                                        {| r_stream := r_stream w_rng; r_ids := OsEntropy [2; 2; 2; 2] |} (w_oracles None) 9))).
+Proof. vm_compute. discriminate. Qed.
+
+(* ===================================================================================== *)
+(* D. reproducibility in the model is definitional                                        *)
+(* ===================================================================================== *)
+(* A run is a function of its inputs, so equal inputs give equal outcomes by congruence; this
+   says nothing about /repo.  What it makes explicit is the list of inputs: besides the seeded
+   generators it contains the hash salt. *)
+Theorem same_inputs_same_history : forall code pl cfg cfg' salt salt' r r' o o' fuel,
+  cfg = cfg' -> salt = salt' -> r = r' -> o = o' ->
+  optimise code pl cfg salt r o fuel = optimise code pl cfg' salt' r' o' fuel.
+Proof. intros; subst; reflexivity. Qed.
+
+(* an operator that looks at the salt (iterates a set of nodes) makes the history depend on it
+   although the generators are seeded identically *)
+Definition w_salty_oracles : oracles :=
+  {| o_objective := w_objective; o_initial := [1; 2];
+     o_extend := fun _ _ _ => ([], 0);
+     o_propose := fun salt _ s pop _ =>
+       (inr [New (3 + hd 0 s) (map E.uid (firstn 1 (if Nat.even salt then pop else rev pop))) (Some H.OCrossover)], 1);
+     o_survive := fun _ _ _ _ evd _ => (evd, 0);
+     o_keeper := fun _ arch pop => (firstn 1 (pop ++ arch), true);
+     o_callback := fun _ _ => None; o_clock := fun _ => false; o_eval_timer := fun _ _ => false;
+     o_sched := fun _ _ l => l |}.
+
+Lemma salt_sensitive :
+  c_lineage (out_core (fst (optimise current_code w_platform w_config 0 w_rng w_salty_oracles 9)))
+  <> c_lineage (out_core (fst (optimise current_code w_platform w_config 1 w_rng w_salty_oracles 9))).
+Proof. vm_compute. discriminate. Qed.
